@@ -83,3 +83,7 @@ Lemma routes_select_refuted_lemma :
               compute_weights QOps 1 2 refute_rad refute_Rm refute_pts [1; 0] [0; 1; 2] = Some b /\
               list_eqQ a [0%bigQ; 0%bigQ] = true /\ list_eqQ b [1%bigQ; 1%bigQ] = true.
 Proof. eexists; eexists. repeat split; vm_compute; reflexivity. Qed.
+
+Lemma copies_identical_lemma T (O : NumOps T) k mu a tbl z :
+  cell_caw O k (nu_caw O mu a) = cell_gw O k (nu_gw O mu a) /\ radius_caw tbl z = radius_gw tbl z.
+Proof. split; [apply copies_agree | apply radius_copies_lemma]. Qed.
